@@ -89,3 +89,144 @@ fn reader_case<const N: usize, const OUT: usize>() {
 vproof!(c14_reader_3, 8, { reader_case::<3, 8>() });
 vproof!(c14_reader_4, 8, { reader_case::<4, 10>() });
 vproof!(c14_reader_5, 8, { reader_case::<5, 12>() });
+
+/// byte of class d: 0 = any octet other than CR/LF (symbolic), 1 = CR, 2 = LF
+fn cls(d: u32) -> u8 {
+    match d {
+        0 => {
+            let b: u8 = kani::any();
+            kani::assume(b != b'\r' && b != b'\n');
+            b
+        }
+        1 => b'\r',
+        _ => b'\n',
+    }
+}
+
+/// buffer whose first R slots follow the base-3 class pattern `p`, the rest arbitrary (stale) octets
+fn pat_buf<const R: usize>(p: u32) -> [u8; 4] {
+    let mut buf: [u8; 4] = kani::any();
+    if R > 0 {
+        buf[0] = cls(p % 3);
+    }
+    if R > 1 {
+        buf[1] = cls((p / 3) % 3);
+    }
+    if R > 2 {
+        buf[2] = cls((p / 9) % 3);
+    }
+    if R > 3 {
+        buf[3] = cls((p / 27) % 3);
+    }
+    buf
+}
+
+fn last_of<const LASTCR: bool>() -> u8 {
+    if LASTCR {
+        b'\r'
+    } else {
+        let b: u8 = kani::any();
+        kani::assume(b != b'\r');
+        b
+    }
+}
+
+/// Inductive step of the streaming reader (scaled build, internal buffer 4 octets): `cleanup_buffer(R, last)`
+/// for EVERY {CR, LF, other} class pattern of the R filled slots (the patterns are enumerated by the loop so
+/// that every buffer length stays concrete - with symbolic lengths CBMC's array post-processing runs out of
+/// 45 GB), every value of the "other" octets and of the stale slots, and every carried octet of the given
+/// class.  Spec: the step emits canon(pending-CR ++ chunk) where a CR in the last slot of a FULL buffer is held
+/// back for the next step.  Chaining steps gives canon(whole input) for sources of any length, provided
+/// fill_buffer delivers consecutive full chunks (c09_fill_buffer_*) and the carried octet is the last slot of
+/// the previous full chunk (c14_reader_fill_*).
+fn reader_step<const R: usize, const LASTCR: bool>() {
+    assert!(BUF_SIZE == 8, "scaled build expected");
+    let total = [1u32, 3, 9, 27, 81][R];
+    let src: [u8; 0] = [];
+    let mut p = 0;
+    while p < total {
+        let buf = pat_buf::<R>(p);
+        let last = last_of::<LASTCR>();
+        let mut rd = NormalizedReader {
+            line_break: LineBreak::Crlf,
+            source: &src[..],
+            in_buffer: buf,
+            replaced: BytesMut::with_capacity(BUF_SIZE),
+            is_done: R < 4,
+        };
+        rd.cleanup_buffer(R, last);
+        let held = R == 4 && buf[3] == b'\r';
+        let end = if held { 3 } else { R };
+        let mut exp = Pack::<1>::default();
+        if LASTCR {
+            exp.push1(b'\r');
+        }
+        ref_canon(&buf[..end], LASTCR, &mut exp);
+        let got = Pack::<1>::of12(&rd.replaced[..]);
+        assert!(got.len == exp.len, "C14 reader step: canonical length differs from reference");
+        assert!(got.same(&exp), "C14 reader step: canonical bytes differ from reference");
+        core::mem::forget(rd);
+        p += 1;
+    }
+}
+
+/// Glue: one real `fill_buffer()` from a previous buffer whose last slot has the given class over a source of
+/// N remaining octets (every class pattern of the octets that fit): is_done is set iff the source could not
+/// fill the buffer, the right number of source octets is consumed, and the emitted bytes are the step spec
+/// with the carried octet = last slot of the PREVIOUS buffer.
+fn reader_fill<const N: usize, const R: usize, const LASTCR: bool>() {
+    assert!(BUF_SIZE == 8, "scaled build expected");
+    let total = [1u32, 3, 9, 27, 81][R];
+    let mut p = 0;
+    while p < total {
+        let mut prev: [u8; 4] = kani::any();
+        prev[3] = last_of::<LASTCR>();
+        let chunk = pat_buf::<R>(p);
+        let mut src: [u8; N] = kani::any();
+        if R > 0 {
+            src[0] = chunk[0];
+        }
+        if R > 1 {
+            src[1] = chunk[1];
+        }
+        if R > 2 {
+            src[2] = chunk[2];
+        }
+        if R > 3 {
+            src[3] = chunk[3];
+        }
+        let mut rd = NormalizedReader {
+            line_break: LineBreak::Crlf,
+            source: &src[..],
+            in_buffer: prev,
+            replaced: BytesMut::with_capacity(BUF_SIZE),
+            is_done: false,
+        };
+        let ok = is_okf(rd.fill_buffer());
+        assert!(ok, "C14 reader: error on an in-memory source");
+        assert!(rd.is_done == (N < 4), "C14 reader: end of source detected wrongly");
+        assert!(rd.source.len() == N - R, "C14 reader: fill consumed a wrong number of source octets");
+        let held = R == 4 && chunk[3] == b'\r';
+        let end = if held { 3 } else { R };
+        let mut exp = Pack::<1>::default();
+        if LASTCR {
+            exp.push1(b'\r');
+        }
+        ref_canon(&chunk[..end], LASTCR, &mut exp);
+        let got = Pack::<1>::of12(&rd.replaced[..]);
+        assert!(got.len == exp.len, "C14 reader fill: canonical length differs from reference");
+        assert!(got.same(&exp), "C14 reader fill: canonical bytes differ from reference");
+        core::mem::forget(rd);
+        p += 1;
+    }
+}
+vproof!(c14_reader_step_0, 7, { reader_step::<0, false>(); reader_step::<0, true>() });
+vproof!(c14_reader_step_1, 7, { reader_step::<1, false>(); reader_step::<1, true>() });
+vproof!(c14_reader_step_2, 10, { reader_step::<2, false>(); reader_step::<2, true>() });
+vproof!(c14_reader_step_3, 28, { reader_step::<3, false>(); reader_step::<3, true>() });
+vproof!(c14_reader_step_4_cr, 82, { reader_step::<4, true>() });
+vproof!(c14_reader_step_4_nocr, 82, { reader_step::<4, false>() });
+vproof!(c14_reader_fill_0, 7, { reader_fill::<0, 0, false>(); reader_fill::<0, 0, true>() });
+vproof!(c14_reader_fill_2, 10, { reader_fill::<2, 2, false>(); reader_fill::<2, 2, true>() });
+vproof!(c14_reader_fill_4_cr, 82, { reader_fill::<4, 4, true>() });
+vproof!(c14_reader_fill_5_nocr, 82, { reader_fill::<5, 4, false>() });
